@@ -7,7 +7,8 @@
    DebugMapLines.v, DebugMapWitness.v. *)
 From Coq Require Import ZArith List Bool.
 From QV Require Import DebugMap DebugMapProofs DebugMapFinalize DebugMapCover DebugMapLines
-  DebugMapWitness DebugMapAttr.
+  DebugMapWitness DebugMapAttr DebugMapCpu.
+From QV Require Cpu.
 Import ListNotations.
 Open Scope Z_scope.
 
@@ -93,6 +94,18 @@ Theorem C11_find_stmt_none : forall stmts addr,
   (forall r, In r stmts -> ~ (r_start r <= addr < r_end r)).
 Proof. exact find_stmt_none_lemma. Qed.
 Print Assumptions C11_find_stmt_none.
+
+(* the lookup of the machine model (Models/Cpu.v find_stmt, used by its
+   RESUME / RESUME NEXT and tied to the real machine by the T-run suites) is
+   this lookup: all find_stmt theorems here speak about what the machine does *)
+Theorem C11_find_stmt_is_machine_lookup : forall stmts addr,
+  Cpu.find_stmt (map rng stmts) addr =
+  match DebugMap.find_stmt stmts addr with
+  | FFound r => Some (rng r)
+  | _ => None
+  end.
+Proof. exact machine_lookup_lemma. Qed.
+Print Assumptions C11_find_stmt_is_machine_lookup.
 
 (* D41: the "if blocks:" branch of find_stmt (undefined names) is unreachable *)
 Theorem C11_find_stmt_block_branch_dead : forall stmts addr,
